@@ -550,6 +550,7 @@ type Exec struct {
 	gtargets   []gridTarget
 	gqueue     []GenOp
 	ghits      []int
+	ghitsL     []int // hits of structural targets attempted while the world is locked
 	readRot    int
 	recent     []GenFlt
 	queries    map[int]*openQuery
